@@ -63,6 +63,12 @@ EXIST_YES = [('ex1.inc', True), ('ex1.inc', False), ('ex2', True), ('ex2', False
 EXIST_NO = [('nx1.inc', True), ('nx1.inc', False), ('nx2', False), ('ex4.inc', True), ('incd/ex1.inc', True), ('incd/nx3.inc', True)]
 FILES = {'src': ['ex1.inc', 'ex2.inc'], 'inc': ['ex3.inc'], 'incdir': 'incd'}
 NONBLANK = ['x', '1', 'foo', 'q9']
+# operand values of a plain IF/ELSEIF: 'true' is any value different from 0 (doc: "true (i.e. not 0)").  Values whose low 8/16 bits
+# are zero, the sign bit, both ends of the accepted range (the assembler range-checks the operand to -2^31 .. 2^32-1 and reports
+# 'range overflow' beyond; the manual gives no range, so nothing outside is generated)
+IF_VALUES = [1, 2, -1, 255, 257, 256, 512, 4096, 32768, 65536, 0x10000, 0x1000000, 0x7fffff00, 2147483647, 2147483648, 0x80000100,
+             4294967040, 4294967295, -256, -512, -65536, -16777216, -2147483648, -2147483647]
+IF_MASKS = [0x100, 0x200, 0x1000, 0x8000, 0xff00, 0x10000, 0xffff0000, 0xff, 0x0f]
 BATCH = 60
 
 
@@ -140,7 +146,7 @@ class Gen:
                     ps = [p for p, t in params if t == 'int']
                     if ps:
                         return ['param', rng.choice(ps)]
-                return ['int', rng.choice([0, 0, 1, 1, 2, -1, 255])]
+                return self.raw_int(params)
             typ = rng.choice(['int', 'int', 'int', 'flt', 'str'])
             # the manual does not define an ordering of strings: only (in)equality is generated for them
             op = rng.choice(['=', '==', '<>', '<', '<=', '>', '>='] if typ != 'str' else ['=', '==', '<>'])
@@ -149,8 +155,28 @@ class Gen:
             return ['not', self.rand_expr(d - 1, params)]
         return [rng.choice(['and', 'or']), self.rand_expr(d - 1, params), self.rand_expr(d - 1, params)]
 
+    def raw_int(self, params=None):
+        """an integer-valued operand used directly as a truth value: literal, symbol, or a masked symbol (flags & $100)"""
+        rng = self.rng
+        r = rng.random()
+        if r < 0.25:
+            return ['int', 0]
+        if r < 0.60:
+            v = rng.choice(IF_VALUES)
+            return ['int', v, True] if (v >= 0 and rng.random() < 0.4) else ['int', v]
+        if r < 0.75:
+            return ['sym', rng.choice(self.cnames + ['v1', 'v2', 'v3'])]
+        a = ['sym', rng.choice(self.cnames)] if rng.random() < 0.7 else ['int', rng.choice(IF_VALUES)]
+        return ['band', a, ['int', rng.choice(IF_MASKS), True]]
+
     def expr(self, want):
         """expression whose truth on the current shadow state is `want` (None: any)"""
+        if want is not None and self.rng.random() < 0.4:
+            # the raw value decides (no comparison or logical operator that would normalise it to 0/1)
+            for _ in range(6):
+                e = self.raw_int()
+                if (self.m.value(e) != 0) == want:
+                    return e
         e = self.rand_expr(self.rng.choice([0, 1, 1, 2]))
         if want is None:
             return e
@@ -312,7 +338,7 @@ class Gen:
         args = []
         for p, t in self.mparams[name]:
             if t == 'int':
-                args.append(['int', rng.choice([0, 0, 1, 2, 3, 7])])
+                args.append(['int', rng.choice([0, 0, 1, 2, 3, 7, 256, 65536, -256])])
             elif t == 'str':
                 args.append(['str', rng.choice(STR_POOL)])
             elif t == 'flt':
@@ -447,7 +473,7 @@ class Gen:
         elif r < 0.55:
             # IRP: the body is assembled once per argument (integers only: the manual does not speak about empty IRP arguments)
             params = [('pirp', 'int')]
-            it = {'t': 'irp', 'param': 'pirp', 'args': [['int', rng.choice([0, 0, 1, 2, 3, 7])] for _ in range(rng.randrange(1, 4))],
+            it = {'t': 'irp', 'param': 'pirp', 'args': [['int', rng.choice([0, 0, 1, 2, 3, 7, 256, 65536])] for _ in range(rng.randrange(1, 4))],
                   'body': [self.mark()] + self.blind_items(1, params, True, sorted(self.mparams)) + [self.mark()]}
         else:
             it = {'t': 'rept', 'n': rng.choice([0, 1, 2, 3]), 'body': [self.mark()] + self.blind_items(1, None, True, sorted(self.mparams)) + [self.mark()]}
@@ -708,10 +734,14 @@ def build_malformed(rng, cls, variant):
         return '\tbyt\t%d' % (k[0] & 255)
 
     def open_if(active_branch_is_else=False):
+        # the assembled branch is the first block, the block of an ELSEIF <expr>, or the default block
         if active_branch_is_else:
-            lines.extend(['\tif\t0', byt(), '\telse', byt()])
+            if rng.random() < 0.3:
+                lines.extend(['\tif\t0', byt(), '\telseif\t%s' % rng.choice(['1', '256', 'c1=c1']), byt()])
+            else:
+                lines.extend(['\tif\t0', byt(), rng.choice(['\telse', '\telseif']), byt()])
         else:
-            lines.extend(['\tif\t1', byt()])
+            lines.extend(['\tif\t%s' % rng.choice(['1', '1', '65536', '-1']), byt()])
 
     def open_switch(in_else=False):
         if in_else:
@@ -743,14 +773,14 @@ def build_malformed(rng, cls, variant):
         lines.append(STMT[cls.split('-')[0]])
         lines.append(byt())
         # afterwards: nothing / every SWITCH closed / one ENDCASE too few (as if the stray statement had closed one): all malformed
-        lines.extend(['\tendcase'] * rng.choice([0, depth, depth - 1]))
+        lines.extend(['\tendcase'] * rng.choice([0, depth, depth - 1, depth - 1]))
     elif cls.endswith('-in-IF'):
         depth = rng.randrange(1, 5)
         for _ in range(depth):
             open_if(rng.random() < 0.5)
         lines.append(STMT[cls.split('-')[0]])
         lines.append(byt())
-        lines.extend(['\tendif'] * rng.choice([0, depth, depth - 1]))
+        lines.extend(['\tendif'] * rng.choice([0, depth, depth - 1, depth - 1]))
     elif cls == 'missing-ENDIF':
         depth = rng.randrange(1, 5)
         missing = rng.randrange(1, depth + 1)
@@ -815,7 +845,7 @@ def plan(tier, seed):
     nrand = 500 if tier == 'quick' else 10000
     for i in range(nrand):
         cases.append({'fam': 'rand', 'groups': 3 if tier == 'quick' else 5})
-    nmal = 12 if tier == 'quick' else 150
+    nmal = 16 if tier == 'quick' else 150
     for cls in MALFORMED:
         for v in range(nmal):
             cases.append({'fam': 'malformed', 'class': cls, 'variant': v})
@@ -1084,6 +1114,8 @@ def judge2(ctx, prog, name):
         out.obs['symbols_defined_in_assembled_blocks'] += len([n for n in exp.tracked if n in exp.defined])
         out.obs['symbols_only_in_skipped_blocks'] += len([n for n in exp.tracked if n not in exp.defined])
         out.sets['nesting_depths_assembled'].add(exp.maxdepth)
+        for s in exp.ifvals:
+            out.sets['if_operand_value_classes'].add(s)
         for s in exp.stmts:
             if '/' in s:
                 out.sets['branches_selected'].add(s)
